@@ -278,7 +278,8 @@ C04(s) == C04a(s) /\ C04b(s) /\ C04c(s)
 Residue(s) ==
   {x \in {"canarySvc", "canaryIng", "batchRelease", "inprog", "ctrl", "knob", "paused", "routeCanary", "stablePin", "grace"} :
      CASE x = "canarySvc"    -> s.net.canarySvc
-       [] x = "canaryIng"    -> s.net.ing
+       \* with a stand-alone TrafficRouting object the routes are that object's: it withdraws them on its own schedule (C18tr)
+       [] x = "canaryIng"    -> s.net.ing /\ ~s.tr.used
        [] x = "batchRelease" -> s.br.exists
        [] x = "inprog"       -> s.wl.exists /\ s.wl.inprog
        [] x = "ctrl"         -> s.wl.exists /\ s.wl.ctrl
@@ -287,7 +288,7 @@ Residue(s) ==
                                      [] s.wl.style = "bluegreen" -> s.wl.origAnno           \* saved settings still on the workload
                                      [] OTHER -> s.wl.ktype # "none")
        [] x = "paused"       -> s.wl.exists /\ s.wl.paused
-       [] x = "routeCanary"  -> s.net.route /\ (s.net.rtCanaryW >= 0 \/ s.net.rtGenRules > 0)
+       [] x = "routeCanary"  -> s.net.route /\ (s.net.rtCanaryW >= 0 \/ s.net.rtGenRules > 0) /\ ~s.tr.used
        [] x = "stablePin"    -> s.net.stableSel # 0
        [] OTHER              -> FALSE}
 
@@ -301,8 +302,15 @@ Terminal(s) ==
 C05(s) ==
   Terminal(s) =>
     /\ Residue(s) = {}
-    /\ s.ghost.origOk
+    /\ (s.tr.used \/ s.ghost.origOk)      \* with a stand-alone TrafficRouting object the routes are restored by it: C05tr
     /\ (s.quiet /\ s.wl.exists => (s.wl.n[s.user.rev] = s.wl.R /\ s.wl.rd[s.user.rev] = s.wl.R))
+
+RoutesWithdrawn(net) ==
+  /\ (net.provIngress => ~net.ing)
+  /\ (net.provGateway /\ net.route => (net.rtCanaryW = -1 /\ net.rtGenRules = 0 /\ net.rtStableW = 1))
+\* a stand-alone TrafficRouting object that reports Healthy has withdrawn its routes and given the user's back
+C05tr_A(s) == s.tr.used /\ s.tr.exists /\ s.tr.phase = "Healthy" /\ ~s.tr.deleting
+C05tr(s) == C05tr_A(s) => (RoutesWithdrawn(s.net) /\ s.ghost.origOk)
 
 (***************************************************************************)
 (* C07 - nothing waits on a wake-up that will not come                     *)
@@ -433,15 +441,24 @@ C18b(s) ==
   (s.ghost.created /\ ~s.ro.exists /\ (s.user.rev >= 2 \/ s.user.rolledBack)) => (Residue(s) \subseteq {"canarySvc", "canaryIng", "batchRelease"} /\ s.ghost.origOk)
   \* objects owned through ownerReferences are collected by the garbage collector (env.gc); everything else must be clean
 
+\* the stand-alone TrafficRouting object: its own finalizer goes (or the object vanishes) only when the routes it
+\* wrote have been withdrawn
+C18tr_A(p, t, q) == p.tr.used /\ p.tr.exists /\ p.tr.finalizer /\ (~q.tr.exists \/ ~q.tr.finalizer)
+C18tr(p, t, q) == C18tr_A(p, t, q) => RoutesWithdrawn(q.net)
+
 (***************************************************************************)
 (* evaluation of everything on one transition                              *)
 (***************************************************************************)
 ActionProps == {"C01a", "C01ro", "C01b", "C01c", "C02", "C02pause", "C02promote", "C02edit",
-                "C03a", "C03b", "C03c", "C09", "C10a", "C11a", "C11b", "C11c", "C11d", "C18a", "C18br"}
-StateProps  == {"C04a", "C04b", "C04c", "C05", "C07", "C10b", "C18b"}
+                "C03a", "C03b", "C03c", "C09", "C10a", "C11a", "C11b", "C11c", "C11d", "C18a", "C18br", "C18tr"}
+StateProps  == {"C04a", "C04b", "C04c", "C05", "C05tr", "C07", "C10b", "C18b"}
 MidProps    == {"C04a", "C04b", "C04c"}   \* also evaluated after every single API write (crash points)
 
+\* predicates about routes written by the Rollout's own traffic routing do not apply to scenarios in which a stand-alone
+\* TrafficRouting object routes (only-traffic-routing mode: no canary Service, weights independent of the batches)
+RolloutRouteProps == {"C03a", "C03b", "C03c", "C04a", "C04c", "C10a"}
 ActHolds(name, p, t, q) ==
+  IF p.tr.used /\ name \in RolloutRouteProps THEN TRUE ELSE
   CASE name = "C01a" -> C01a(p, t, q)    [] name = "C01ro" -> C01ro(p, t, q)
     [] name = "C01b" -> C01b(p, t, q)    [] name = "C01c" -> C01c(p, t, q)
     [] name = "C02" -> C02(p, t, q)      [] name = "C02pause" -> C02pause(p, t, q)
@@ -453,8 +470,10 @@ ActHolds(name, p, t, q) ==
     [] name = "C11a" -> C11a(p, t, q)    [] name = "C11b" -> C11b(p, t, q)
     [] name = "C11c" -> C11c(p, t, q)    [] name = "C11d" -> C11d(p, t, q)
     [] name = "C18a" -> C18a(p, t, q)    [] name = "C18br" -> C18br(p, t, q)
+    [] name = "C18tr" -> C18tr(p, t, q)
 
 ActAnte(name, p, t, q) ==
+  IF p.tr.used /\ name \in RolloutRouteProps THEN FALSE ELSE
   CASE name = "C01a" -> C01a_A(p, t, q)    [] name = "C01ro" -> C01ro_A(p, t, q)
     [] name = "C01b" -> C01b_A(p, t, q)    [] name = "C01c" -> C01c_A(p, t, q)
     [] name = "C02" -> C02_A(p, t, q)      [] name = "C02pause" -> C02pause_A(p, t, q)
@@ -466,19 +485,24 @@ ActAnte(name, p, t, q) ==
     [] name = "C11a" -> C11a_A(p, t, q)    [] name = "C11b" -> C11b_A(p, t, q)
     [] name = "C11c" -> C11c_A(p, t, q)    [] name = "C11d" -> C11d_A(p, t, q)
     [] name = "C18a" -> C18a_A(p, t, q)    [] name = "C18br" -> C18br_A(p, t, q)
+    [] name = "C18tr" -> C18tr_A(p, t, q)
 
 StateAnte(name, s) ==
+  IF s.tr.used /\ name \in RolloutRouteProps THEN FALSE ELSE
   CASE name = "C04a" -> C04a_A(s)
     [] name = "C04b" -> C04b_A(s)
     [] name = "C04c" -> s.net.ing \/ (s.net.route /\ (s.net.rtCanaryW >= 0 \/ s.net.rtGenRules > 0))
     [] name = "C05" -> Terminal(s)
+    [] name = "C05tr" -> C05tr_A(s)
     [] name = "C07" -> C07_A(s)
     [] name = "C10b" -> s.ro.exists /\ s.user.rolledBack /\ s.ro.phase = "Healthy" /\ s.ro.reason = "Completed" /\ s.user.rev = 1
     [] name = "C18b" -> s.ghost.created /\ ~s.ro.exists /\ (s.user.rev >= 2 \/ s.user.rolledBack)
 
 StateHolds(name, s) ==
+  IF s.tr.used /\ name \in RolloutRouteProps THEN TRUE ELSE
   CASE name = "C04a" -> C04a(s) [] name = "C04b" -> C04b(s) [] name = "C04c" -> C04c(s)
     [] name = "C05" -> C05(s)   [] name = "C10b" -> C10b(s) [] name = "C18b" -> C18b(s)
+    [] name = "C05tr" -> C05tr(s)
     [] name = "C07" -> C07(s)
 
 =============================================================================
